@@ -1168,7 +1168,37 @@ def install12(ip):
         P(r'^String::from_utf8$|^(core::str::|std::str::)?from_utf8$|converts::from_utf8$', m_string_from_utf8), P(r'impl str>::as_bytes$|^String::as_bytes$', m_as_bytes), P(r'^String::into_bytes$', m_into_bytes),
     ] + ip.pattern_models
 
+# ---- futures: Pin / Box::pin / Waker / polling of coroutines
+def m_box_pin(ip, c, a): return Agg('Pin', None, [Cell(Agg('Box', None, [Cell(a[0])]))])
+def m_pin_new_unchecked(ip, c, a): return Agg('Pin', None, [Cell(a[0])])
+def m_pin_as_mut(ip, c, a):
+    p = unref(a[0]); inner = p.fields[0].v
+    if isinstance(inner, Agg) and inner.ty == 'Box': return Agg('Pin', None, [Cell(Ref(inner.fields[0]))])
+    return Agg('Pin', None, [Cell(inner)])
+def m_pin_get_mut(ip, c, a): return a[0].fields[0].v
+def m_waker_noop(ip, c, a): return Ref(Cell(Agg('Waker', None, [])))
+def m_context_from_waker(ip, c, a): return Agg('Context', None, [Cell(a[0])])
+def m_future_poll(ip, c, a):
+    p = a[0]; tgt = p.fields[0].v if isinstance(p, Agg) and p.ty == 'Pin' else p
+    while isinstance(tgt, Ref): tgt = tgt.cell.v
+    if isinstance(tgt, Agg) and tgt.ty == 'Box': tgt = tgt.fields[0].v
+    if isinstance(tgt, Coroutine):
+        body = ip.coroutine_body(tgt)
+        return ip.call_fn(body, [Agg('Pin', None, [Cell(Ref(Cell(tgt)) if not isinstance(p.fields[0].v, Ref) else p.fields[0].v)]), a[1]])
+    if isinstance(tgt, Agg):
+        r = ip.resolve('<%s as Future>::poll' % tgt.ty)
+        if r is not None: return ip.call_fn(r, [p, a[1]])
+    raise Unsupported("poll of %r" % (tgt,))
+def m_into_future(ip, c, a): return a[0]
+def m_unsize_ident(ip, c, a): return a[0]
 def install13(ip):
+    P = lambda rx, f: (re.compile(rx), f)
+    ip.pattern_models = [
+        P(r'^Box::pin$|^Box::<.*>::pin$', m_box_pin), P(r'^Pin::<.*>::new_unchecked$|^Pin::new_unchecked$|^Pin::<.*>::new$|^Pin::new$', m_pin_new_unchecked),
+        P(r'^Pin::<.*>::as_mut$|^Pin::as_mut$', m_pin_as_mut), P(r'^Pin::<.*>::get_mut$|^Pin::get_mut$|^Pin::<.*>::get_unchecked_mut$|^Pin::get_unchecked_mut$', m_pin_get_mut),
+        P(r'^Waker::noop$', m_waker_noop), P(r'^Context::<.*>::from_waker$|^Context::from_waker$', m_context_from_waker),
+        P(r' as Future>::poll$', m_future_poll), P(r' as IntoFuture>::into_future$', m_into_future),
+    ] + ip.pattern_models
     ip.pattern_models = ip.pattern_models + [(re.compile(r' as Clone>::clone$'), m_clone_generic)]
 
 def install_all(ip):
